@@ -108,7 +108,8 @@ def generate(seed, tier="quick", mode=None, child=False, **kw):
         return _gen_c10(r, seed, child)
     feats = [f for f in ("pwd", "ip", "words", "as") if r.random() < 0.6] or ["pwd"]
     nosalt = r.random() < 0.12
-    o = GC.gen_opts(r, features=feats, cli_safe=True, j9=True)
+    # a salt outside the Juniper alphabet makes a $9$ line fail the file today -- identically in both executions
+    o = GC.gen_opts(r, features=feats, cli_safe=True, j9=(r.random() > 0.12))
     if "words" in feats:
         GC.add_words(r, o, n=r.randint(2, 4))
     secrets = GC.gen_secrets(r, r.randint(1, 4), classes=["text", "sha", "sha", "md5", "t7", "num", "hex", "j9p", "c9", "j9p-num"] + (
